@@ -100,6 +100,10 @@ VariantStrings == {Tail6, Digits, <<7, 8, 3, 8, 6, 5>>}
 \* more than 150 distinct glyphs of one font in one document (U+0021..U+007E, U+00C0..U+00FF): the two-byte codes pass
 \* 0x0A, 0x0D, 0x28, 0x29 and 0x5C, the bytes that need an escape inside a literal string
 LongString == [i \in 1..158 |-> IF i <= 94 THEN 32 + i ELSE 97 + i]
+\* more than 350 distinct glyphs (Latin, Latin-1, Latin Extended-A, Greek, Cyrillic): codes of the second byte page (0x0128,
+\* 0x0129, 0x015C: low byte ( ) \ ) are handed out.  Fonts without these characters skip the document.
+Rng(a, b) == [i \in 1..(b - a + 1) |-> a + i - 1]
+LongString2 == Rng(33, 126) \o Rng(161, 172) \o Rng(174, 255) \o Rng(256, 383) \o Rng(913, 929) \o Rng(931, 969) \o Rng(1040, 1103)
 \* kerning pairs and ligatures: "AVTo ffl fi"
 FeatString == <<65, 86, 84, 111, 32, 102, 102, 108, 32, 102, 105>>
 MarkStrings == {<<97, 113, 771, 98>>, <<103, 776, 120, 120>>, <<113, 771, 776, 65, 86>>, <<110, 776, 97>>}
@@ -116,6 +120,7 @@ Init ==
                                   \cup {DocS(f, TRUE, TRUE, 0, v, 0, <<Text(s, "H2")>>) : f \in 1..3, v \in 1..2, s \in VariantStrings}
                                   \* many distinct glyphs; OpenType features switched off on the font
                                   \cup {DocS(f, sub, z, 0, 0, 0, <<RawText(LongString, "H")>>) : f \in 1..3, sub \in BOOLEAN, z \in BOOLEAN}
+                                  \cup {DocS(f, sub, TRUE, 0, 0, 0, <<RawText(LongString2, "H")>>) : f \in 1..3, sub \in BOOLEAN}
                                   \cup {DocF(f, sub, TRUE, 0, 0, 0, ft, <<RawText(FeatString, "H"), Text(Tail6, "H")>>) : f \in 1..3, sub \in BOOLEAN, ft \in 0..2}
                                   \* glyph offsets (mark attachment) followed by further glyphs
                                   \cup {DocS(f, sub, TRUE, 0, 0, 0, <<RawText(s, "H")>>) : f \in 1..3, sub \in BOOLEAN, s \in MarkStrings}
@@ -137,7 +142,7 @@ Spec == Init /\ [][Next]_vars
 \* Records (built by harness/internal/props/c18 from oracle.ParsePDF + oracle/pdffont.go):
 \*  D (document): [kind ("ttf" | "cff"), subset, reuse, upm, hv, fonts, spans, unreadable]
 \*  F (one PDF font object): [enc, subtype, dw, w : <<[t |-> "list", c, ws] | [t |-> "range", c, c2, wd]>>, tuc : <<[c, u]>>, tur : <<[lo, hi, u]>>,
-\*      hasmap, map : <<gid>>, ng (glyphs in the embedded program; -1 unreadable), csok, w1 (vertical displacement: DW2[2], default -1000)]
+\*      hasmap, map : <<gid>>, ng (glyphs in the embedded program; -1 unreadable), csok, maxcode, w1 (vertical displacement: DW2[2], default -1000)]
 \*  E (one shown glyph, in content stream order): [f (index of the font object), span (index of its span), code, adj (TJ number after the glyph, 0 if none),
 \*      g, xadv, yadv, vert, cluster : <<code points>>, rev (code point the source cmap gives for g, 0 if none), adv (source advance of g),
 \*      src, eid, emap : glyph signatures [n, h, adv, x0, y0, x1, y1] of the source glyph g and of the embedded glyphs number code / map[code]]
@@ -193,7 +198,11 @@ GlyphDiag(D, F, E, sub) ==
         ELSE IF ToUnicode(F, E.code) = <<0>> /\ E.rev = 0 THEN {"tounicode-zero-for-unmapped-glyph"}      \* glyph reached by substitution only
         ELSE {Hv(D, "tounicode-wrong:" \o Feat(D))})
   \cup (IF F.ng < 0 \/ EmbGid(F, E) < 0 \/ EmbGid(F, E) >= F.ng \/ EmbSig(F, E) = E.src THEN {}
-        ELSE IF CffFeature(D) THEN {"glyph-differs:" \o Feat(D)} ELSE {Hv(D, "glyph-differs:" \o Feat(D))})
+        ELSE IF CffFeature(D) THEN {"glyph-differs:" \o Feat(D)}
+        \* subsetting was requested but the embedded CFF program has (many) more glyphs than codes were handed out: the writer
+        \* fell back to the full font while the content stream keeps subset codes
+        ELSE IF D.kind = "cff" /\ D.subset /\ F.ng > F.maxcode + 2 THEN {"glyph-differs:" \o Feat(D) \o ":fallback-full-font"}
+        ELSE {Hv(D, "glyph-differs:" \o Feat(D))})
   \cup (IF E.vert THEN (IF Abs((F.w1 - E.adj) * D.upm - 1000 * E.yadv) <= 2 * D.upm THEN {} ELSE {Hv(D, "pen-advance-wrong:vertical:" \o Feat(D))})
         ELSE (IF Abs((WidthOf(F, E.code) - E.adj) * D.upm - 1000 * E.xadv) <= 2 * D.upm THEN {} ELSE {Hv(D, "pen-advance-wrong:" \o Feat(D))}))
   \cup (IF E.vert /\ F.enc # "Identity-V" THEN {"vertical-span-not-identity-v"}
@@ -247,9 +256,10 @@ SpanPlacedDiag(D) ==
 Cos(r) == CASE r = 0 -> K [] r \in {90, -270} -> 0 [] r \in {180, -180} -> 0 - K [] r \in {-90, 270} -> 0 [] OTHER -> 0
 Sin(r) == CASE r = 0 -> 0 [] r \in {90, -270} -> K [] r \in {180, -180} -> 0 [] r \in {-90, 270} -> 0 - K [] OTHER -> 0
 RightAngle(r) == r \in {0, 90, -90, 180, -180, 270, -270}
+MD(a, b) == a * (b \div K) + (a * (b % K)) \div K      \* a * b / K without leaving 32 bits (|a| <= about K, b an origin in um)
 MMul(p, q) == <<(p[1] * q[1] + p[3] * q[2]) \div K, (p[2] * q[1] + p[4] * q[2]) \div K,     \* linear parts in 1/K
                 (p[1] * q[3] + p[3] * q[4]) \div K, (p[2] * q[3] + p[4] * q[4]) \div K,
-                (p[1] * q[5] + p[3] * q[6]) \div K + p[5], (p[2] * q[5] + p[4] * q[6]) \div K + p[6]>>
+                MD(p[1], q[5]) + MD(p[3], q[6]) + p[5], MD(p[2], q[5]) + MD(p[4], q[6]) + p[6]>>
 PathPlacedDiag(D) ==
   UNION {IF ~D.spans[i].pchk \/ ~RightAngle(D.spans[i].rot) THEN {}
          ELSE LET sp == D.spans[i]
